@@ -4,12 +4,14 @@
 package main
 
 import (
+	"bufio"
 	"encoding/json"
 	"flag"
 	"fmt"
 	"os"
 	"os/exec"
 	"strings"
+	"sync/atomic"
 	"time"
 )
 
@@ -83,16 +85,41 @@ func workerMain(args []string) {
 	seen := map[string]bool{}
 	var logDigest uint64
 	nruns := 0
+	budgetFails := 0
+	var progress int64 = time.Now().Unix()
+	var current atomic.Value
+	go func() {
+		// self-watchdog: one evaluation (or generation) stuck for two minutes of
+		// wall clock is reported as harness trouble (exit 4), never as a violation
+		for {
+			time.Sleep(5 * time.Second)
+			if time.Now().Unix()-atomic.LoadInt64(&progress) > 120 {
+				fmt.Fprintf(os.Stderr, "worker stalled for >120s in %v\n", current.Load())
+				os.Exit(4)
+			}
+		}
+	}()
 	for i := *worker; i < *runs; i += *workers {
+		if budgetFails >= 2 || len(st.Failures) >= 6 {
+			// every further hang costs a full step budget; the verdict is already a violation
+			break
+		}
 		nruns++
+		atomic.StoreInt64(&progress, time.Now().Unix())
+		current.Store(fmt.Sprintf("%s/%s seed=%d run=%d (generation)", *prop, *phase, *seed, i))
 		r := rngFor(*seed, *prop+"/"+*phase, i)
 		scns := ph.Gen(r, i)
 		for j, s := range scns {
-			s.Seed, s.Run, s.Variant = *seed, i, *variant
+			s.Seed, s.Run, s.Sub, s.Variant = *seed, i, j, *variant
+			atomic.StoreInt64(&progress, time.Now().Unix())
+			current.Store(fmt.Sprintf("%s/%s seed=%d run=%d sub=%d", *prop, *phase, *seed, i, j))
 			f := evaluate(s, st)
 			verdict := "ok"
 			if f != nil {
 				verdict = f.Check
+				if f.Check == "step-budget" || strings.Contains(f.Observed, "STEP-BUDGET") {
+					budgetFails++
+				}
 				if !seen[f.Check] && len(st.Failures) < 6 {
 					seen[f.Check] = true
 					fs := s.clone()
@@ -152,7 +179,7 @@ func replayMain(args []string) {
 			fmt.Printf("REPLAY expected=%s\n", trunc(strings.ReplaceAll(f.Expected, "\n", "\\n"), 1500))
 		}
 	}
-	if s.Check == "" || s.Check == f.Check {
+	if f.matches(s.Check) {
 		os.Exit(1)
 	}
 	os.Exit(3)
@@ -198,13 +225,13 @@ func minimiseMain(args []string) {
 		setupProcess(*nsites, *racelog)
 		test = func(c *Scenario) bool {
 			f := evaluate(c, newStats())
-			return f != nil && f.Check == check
+			return f.matches(check)
 		}
 	}
 	min, tests := minimise(s, test, *maxTests, time.Now().Add(time.Duration(*secs)*time.Second))
 	// refresh observed/expected from the minimised scenario
 	if check != "race" {
-		if f := evaluate(min, newStats()); f != nil && f.Check == check {
+		if f := evaluate(min, newStats()); f.matches(check) {
 			min.Observed, min.Expected, min.Stack = trunc(f.Observed, 4000), trunc(f.Expected, 4000), f.Stack
 		}
 	}
@@ -215,13 +242,17 @@ func minimiseMain(args []string) {
 	}
 }
 
-// genMain prints the scenarios of one run index (debugging aid).
+// genMain prints the scenarios of run indices from..to (step stride), one
+// JSON object per line; the driver uses it to rebuild a worker's history.
 func genMain(args []string) {
 	fs := flag.NewFlagSet("gen", flag.ExitOnError)
 	prop := fs.String("prop", "", "")
 	phase := fs.String("phase", "", "")
 	seed := fs.Uint64("seed", 1, "")
-	run := fs.Int("run", 0, "")
+	from := fs.Int("from", 0, "")
+	to := fs.Int("to", 0, "")
+	stride := fs.Int("stride", 1, "")
+	variant := fs.String("variant", "", "")
 	nsites := fs.Int("nsites", 0, "")
 	fs.Parse(args)
 	setupProcess(*nsites, "")
@@ -229,9 +260,17 @@ func genMain(args []string) {
 	if ph == nil {
 		die("no phase")
 	}
-	for _, s := range ph.Gen(rngFor(*seed, *prop+"/"+*phase, *run), *run) {
-		s.Seed, s.Run = *seed, *run
-		b, _ := json.Marshal(s)
-		fmt.Println(string(b))
+	w := bufio.NewWriter(os.Stdout)
+	defer w.Flush()
+	for i := *from; i <= *to; i += *stride {
+		if i < 0 {
+			continue
+		}
+		for j, s := range ph.Gen(rngFor(*seed, *prop+"/"+*phase, i), i) {
+			s.Seed, s.Run, s.Sub, s.Variant = *seed, i, j, *variant
+			b, _ := json.Marshal(s)
+			w.Write(b)
+			w.WriteByte('\n')
+		}
 	}
 }
